@@ -11,7 +11,7 @@ RULE = ("all DNA and RNA letter strings with 2<=L<=5 (quick; 6 thorough) and eve
         "breaking (all 2^(L-1) compositions); .txt files over residue names of 1-4 characters with every line breaking; -seq lists "
         "name:n with n<=3 and <=3 entries; gen_seq: macro strings levels 1-3 x branching 1-3 x one or two residue names with "
         "probability 1, all sequences of <=3 macros, all valid single connect records between consecutive macros, terminal "
-        "renamings and labels; the .json gen_seq writes is read back through MetaMolecule.from_sequence_file. Oracle (independent "
+        "renamings and labels, macros and labels drawing from 2-3 values (every outcome of the draws, weights 0 included); the .json gen_seq writes is read back through MetaMolecule.from_sequence_file. Oracle (independent "
         "tables and tree arithmetic): node count, residue names incl. 5'/3' suffixes, resid = position from 1, edge set, circular "
         "closing edge labelled linktype=circle, JSON round trip identical. distinct_nontrivial = inputs with >=2 residues")
 ASSUMPTIONS = ["single-nucleotide DNA/RNA sequences are not judged (a residue cannot be 5' and 3' terminal at once)",
@@ -95,6 +95,7 @@ def cases(tier):
         yield dict(kind="genseq", levels=lv, bfact=bf, tier=tier)
     yield dict(kind="badletters", tier=tier)
     yield dict(kind="genseqfile", tier=tier)
+    yield dict(kind="genseqrand", tier=tier)
 
 
 def check_nuc(case):
@@ -368,6 +369,61 @@ TRI 1
 FILE_MACROS = {"M": (["MA", "MB"], [(0, 1)]), "TRI": (["QA", "QB", "QA", "QC"], [(0, 1), (1, 2), (1, 3)])}
 
 
+def check_genseq_random(case):
+    """macros and tags that draw from several values: every outcome of the draws (a chooser stands behind random.choices in
+    gen_seq) - the value written for each residue is the one drawn for it, values of weight 0 are never offered"""
+    import types
+    import polyply.src.gen_seq as gs
+    from polyply.src.gen_seq import gen_seq
+    from polyply.src.meta_molecule import MetaMolecule
+    from ..explore_choice import explore
+    viols, evals, keys = [], 0, []
+    real_random = gs.random
+    specs = [("X:2:1:PEO-0.5,PPO-0.5", ["PEO", "PPO"], [0.5, 0.5]), ("X:2:1:PEO-1.0,PPO-0.0", ["PEO", "PPO"], [1.0, 0.0]),
+             ("X:2:1:PEO-0.0,PPO-1.0", ["PEO", "PPO"], [0.0, 1.0]), ("X:3:1:PEO-0.2,PPO-0.3,PS-0.5", ["PEO", "PPO", "PS"], [0.2, 0.3, 0.5]),
+             ("X:2:2:PEO-0.0,PPO-0.7,PS-0.3", ["PEO", "PPO", "PS"], [0.0, 0.7, 0.3])]
+    tag_opts = [[], ["0:chiral:R-0.5,S-0.5"], ["0:chiral:R-0.0,S-1.0"]]
+    with H.tempdir() as d:
+        for mstring, values, weights in specs:
+            for tags in tag_opts:
+                out = d / "seq.json"
+
+                def run(ch):
+                    drawn = []
+
+                    def choices(population, weights=None, k=1):
+                        allowed = [i for i, w in enumerate(weights) if w > 0]
+                        c = ch.choose("rng", len(allowed), 0)
+                        drawn.append(population[allowed[c]])
+                        return [population[allowed[c]]]
+                    gs.random = types.SimpleNamespace(seed=lambda *a, **k: None, choices=choices)
+                    try:
+                        gen_seq(name="m", outpath=out, seq=["X"], macro_strings=[mstring], connects=[], modifications=[], tags=tags)
+                        mm = MetaMolecule.from_sequence_file(None, out, "mol")
+                        return dict(exc=None, drawn=drawn, nodes=[(mm.nodes[n].get("resname"), mm.nodes[n].get("chiral")) for n in mm.nodes])
+                    except Exception as exc:  # noqa
+                        return dict(exc=exc, drawn=drawn, nodes=None)
+                    finally:
+                        gs.random = real_random
+                for prefix, ch, res in explore(run, {"rng": 10, "*": 10}):
+                    evals += 1
+                    case1 = dict(kind="genseqrand1", macro=mstring, tags=tags, choices=ch.choices())
+                    if res["exc"] is not None:
+                        viols.append(crash_violation(res["exc"], case1, assertion="gen_seq-output-readable"))
+                        continue
+                    n = len(res["nodes"])
+                    want_names = res["drawn"][:n]
+                    want_tags = res["drawn"][n:] if tags else []
+                    got_names = [x[0] for x in res["nodes"]]
+                    got_tags = [x[1] for x in res["nodes"]] if tags else []
+                    zero = {v for v, w in zip(values, weights) if w == 0} | ({"R"} if tags and "R-0.0" in tags[0] else set())
+                    if (got_names != want_names or (tags and got_tags != want_tags) or set(got_names) & zero or set(got_tags) & zero) and len(viols) < 20:
+                        viols.append(dict(assertion="gen_seq-graph-as-specified", tags=["random-macro"],
+                                          message=f"macro {mstring} tags {tags} draws {res['drawn']}: residues {res['nodes']}", case=case1, detail={}))
+                    keys.append(json.dumps([mstring, tags, ch.choices()]))
+    return viols, evals, keys
+
+
 def check_genseq_file(case):
     """macros taken from molecule definitions in an input file (-from_file), mixed with string macros"""
     from polyply.src.gen_seq import gen_seq
@@ -446,8 +502,12 @@ def run_case(case):
                              case.get("circ", False))
         v = [] if graph_view(mm) == want else [dict(assertion="residue-graph-as-specified", tags=[], message=f"{graph_view(mm)} != {want}", case=case, detail={})]
         return dict(evals=1, keys=[], violations=v, stats={})
+    if kind == "genseqrand1":
+        v, _, _ = check_genseq_random(dict(kind="genseqrand", tier="quick"))
+        v = [x for x in v if all(x["case"].get(k) == case.get(k) for k in ("macro", "tags", "choices"))]
+        return dict(evals=1, keys=[], violations=v, stats={})
     fn = {"nuc": check_nuc, "prot": check_prot, "txt": check_txt, "seqopt": check_seqopt, "genseq": check_genseq, "genseqfile": check_genseq_file,
-          "badletters": check_badletters, "dress": check_dress}.get(kind)
+          "badletters": check_badletters, "dress": check_dress, "genseqrand": check_genseq_random}.get(kind)
     if fn is None:
         return dict(evals=0, keys=[], violations=[], stats={})
     v, evals, keys = fn(case)
